@@ -1628,6 +1628,10 @@ func (c *c15) opPerformJoin() {
 		}
 		c.fault(k)
 	}
+	if jc.tplFault == "" && (rm.ver == "1" || rm.ver == "4") && t.Chance(350) {
+		// residents of old rooms often answer make_join without room_version
+		jc.tplFault = "template_no_version"
+	}
 	uid, _ := spec.NewUserID(c.ju.id, true)
 	rid, _ := spec.NewRoomID(rm.roomID)
 	k := rm.J().Current()
